@@ -12,6 +12,7 @@ package kv
 import (
 	"bytes"
 	"context"
+	"sync"
 
 	"github.com/synnaxlabs/aspen/internal/node"
 	"github.com/synnaxlabs/freighter"
@@ -100,12 +101,16 @@ func runRecovery(ctx context.Context, cfg Config) error {
 	nodes := cfg.Cluster.Nodes()
 	sCtx := signal.Wrap(ctx, signal.WithInstrumentation(cfg.Instrumentation))
 	cfg.L.Info("recovering lost key-value operations", zap.Int("peer_node_count", len(nodes)-1))
+	// Peers are recovered from concurrently, each in its own transaction. Applying is
+	// serialised so that an operation is compared with what the transactions of the other
+	// peers have already committed.
+	var applyMu sync.Mutex
 	for _, n := range nodes {
 		if n.Key == cfg.Cluster.HostKey() {
 			continue
 		}
 		sCtx.Go(func(ctx context.Context) error {
-			return runSingleNodeRecovery(ctx, cfg, n)
+			return runSingleNodeRecovery(ctx, cfg, n, &applyMu)
 		}, signal.WithKeyf("node_%v", n.Key))
 	}
 	err := sCtx.Wait()
@@ -141,6 +146,7 @@ func runSingleNodeRecovery(
 	ctx context.Context,
 	cfg Config,
 	node node.Node,
+	applyMu *sync.Mutex,
 ) error {
 	hw, err := loadHighWater(ctx, cfg)
 	if err != nil {
@@ -154,25 +160,39 @@ func runSingleNodeRecovery(
 	if err = stream.Send(RecoveryRequest{HighWater: hw}); err != nil {
 		return err
 	}
+	var ops []Operation
+	for {
+		resp, err := stream.Receive()
+		if err != nil {
+			if errors.Is(err, freighter.EOF) {
+				break
+			}
+			return err
+		}
+		ops = append(ops, resp.Operations...)
+	}
+	applyMu.Lock()
+	defer applyMu.Unlock()
 	return kv.WithTx(ctx, cfg.Engine, func(tx kv.Tx) error {
 		count := 0
-		for {
-			resp, err := stream.Receive()
+		for _, op := range ops {
+			// The peer streams everything at or above the high-water mark, which may
+			// include operations that lose against what is stored here (an equal version
+			// from a lower leaseholder, or an older version than another peer delivered).
+			ok, err := supersedes(ctx, tx, op)
 			if err != nil {
-				if errors.Is(err, freighter.EOF) {
-					break
-				}
 				return err
 			}
-			count += len(resp.Operations)
-			for _, op := range resp.Operations {
-				if err = op.apply(ctx, tx); err != nil {
-					return err
-				}
-				if err = op.Digest().apply(ctx, tx); err != nil {
-					return err
-				}
+			if !ok {
+				continue
 			}
+			if err = op.apply(ctx, tx); err != nil {
+				return err
+			}
+			if err = op.Digest().apply(ctx, tx); err != nil {
+				return err
+			}
+			count++
 		}
 		cfg.L.Info("successfully recovered lost key-value operations", zap.Stringer("node", node.Key), zap.Int("operations", count))
 		return nil
